@@ -1032,3 +1032,8 @@ impl CKBProtocolHandler for Synchronizer {
         }
     }
 }
+
+/// verification hook: the block fetcher (its `update_last_common_header` is the only writer of a peer's
+/// `last_common_header` besides `fetch` itself); add-only, off by default
+#[cfg(feature = "verif-hooks")]
+pub use self::block_fetcher::BlockFetcher as VerifBlockFetcher;
